@@ -277,7 +277,55 @@ def run_constructor_case(case):
     return {'fails': fails}
 
 
-SCOPES = {'reactions': run_reaction_case, 'programs': run_program_case, 'module-invariant': run_minv_case,
+def run_empty_site_case(case):
+    """operations that validate their result (filter, head, update_ids, the constructor) honour the reaction
+    configured for 'empty' when that result is an empty table - and the callback gets the offending table"""
+    import biom.err as E
+    from biom import Table
+    from biom.exception import TableException
+    site, reaction = case['site'], case['reaction']
+    fails = []
+    _reset()
+    try:
+        t = Table(np.array([[1., 2.], [3., 4.]]), ['O1', 'O2'], ['S1', 'S2'])
+        emptied = Table(np.array([[1., 2.], [3., 4.]]), ['O1', 'O2'], ['S1', 'S2'])
+        emptied.filter([], axis='sample')
+        E.seterr(empty=reaction)
+        calls = []
+        E.seterrcall('empty', lambda item: calls.append(item))
+        out = io.StringIO()
+        saved_stdout = E.stdout
+        E.stdout = out
+        raised = res = None
+        try:
+            with warnings.catch_warnings(record=True) as w:
+                warnings.simplefilter('always')
+                try:
+                    if site == 'filter-not-inplace':
+                        res = t.filter(lambda v, i, md: False, axis='sample', inplace=False)
+                    elif site == 'filter-inplace':
+                        res = t.filter([], axis='observation', inplace=True)
+                    elif site == 'constructor':
+                        res = Table(np.zeros((0, 0)), [], [])
+                    elif site == 'update_ids':
+                        res = emptied.update_ids({'O1': 'P1', 'O2': 'P2'}, axis='observation', inplace=True)
+                except Exception as e:      # noqa
+                    raised = e
+        finally:
+            E.stdout = saved_stdout
+        obs = {'raised': repr(raised), 'stdout': out.getvalue(), 'warnings': len(w), 'calls': len(calls)}
+        exp = {'raise': isinstance(raised, TableException) and raised.args[0] == E.EMPTY,
+               'ignore': raised is None and not out.getvalue() and not w and not calls,
+               'warn': raised is None and len(w) == 1, 'print': raised is None and out.getvalue() == E.EMPTY + '\n',
+               'call': raised is None and len(calls) == 1 and (res is None or calls[0] is res)}[reaction]
+        if not exp:
+            fails.append(rt.fail('empty-result/%s-is-what-happens' % reaction, 'site-%s' % site, reaction, obs))
+    finally:
+        _reset()
+    return {'fails': fails}
+
+
+SCOPES = {'result-validation-sites': run_empty_site_case, 'reactions': run_reaction_case, 'programs': run_program_case, 'module-invariant': run_minv_case,
           'constructor-call-site': run_constructor_case}
 
 
@@ -309,6 +357,10 @@ def run(rep):
         rt.run_scope(rep, 'constructor-call-site', '4 constructor-triggerable kinds x 5 reactions',
                      ({'kind': k, 'reaction': r} for k in ('obssize', 'sampsize', 'obsdup', 'sampdup') for r in REACTIONS),
                      run_constructor_case, exhaustive=True)
+        rt.run_scope(rep, 'result-validation-sites', '{filter not in place, filter in place, constructor, update_ids} producing an '
+                     'empty table x 5 reactions for the kind empty',
+                     ({'site': st_, 'reaction': r} for st_ in ('filter-not-inplace', 'filter-inplace', 'constructor', 'update_ids')
+                      for r in REACTIONS), run_empty_site_case, exhaustive=True)
         rt.run_scope(rep, 'programs', 'all programs over %d operations (seterr incl. all/unknown, errstate enter / exit / '
                      'exit-by-exception, seterrcall) up to depth %d against a scoped-stack reference model'
                      % (len(OPS), 3 if rep.tier == 'quick' else 4), program_cases(rep.tier), run_program_case,
